@@ -293,18 +293,19 @@ def e_api(c):
         seed = None
         eff = 2 ** n - 1
     total = sum(c["splits"])
+    sd = seed if not isinstance(seed, int) or abs(seed) < 2 ** 200 else f"<{seed.bit_length()}-bit integer>"     # (decimal rendering of huge ints is capped by Python)
     o = ref_bits(n, t, eff, total)
     with warnings.catch_warnings(record=True) as w:
         warnings.simplefilter("always")
         out, stt = lib(D.PRBS, n, len=total, seed=seed, return_seed=True)
     warned = any(issubclass(x.category, UserWarning) for x in w)
     if kind == "zero":
-        check(warned, "zero-seed-no-warning", f"seed={seed}")
+        check(warned, "zero-seed-no-warning", f"seed={sd}")
     else:
-        check(not warned, "spurious-warning", f"seed={seed}: {[str(x.message) for x in w][:1]}")
-    check(np.array_equal(out.data, o[:total]), "prbs!=reference-sequence", f"order {n} seed {seed} (effective {eff:#x}) len {total}")
+        check(not warned, "spurious-warning", f"seed={sd}: {[str(x.message) for x in w][:1]}")
+    check(np.array_equal(out.data, o[:total]), "prbs!=reference-sequence", f"order {n} seed {sd} (effective {eff:#x}) len {total}")
     check(int(out.data[0]) == (eff & 1), "first-output!=seed-LSB", "")
-    check(int(stt) == state_after(n, o, total), "prbs-returned-state!=reference", f"order {n} seed {seed}")
+    check(int(stt) == state_after(n, o, total), "prbs-returned-state!=reference", f"order {n} seed {sd}")
     # the caller owns the returned sequence: scribbling on it must not change what an identical later call returns
     first_bits = out.data.copy()
     try:
@@ -314,8 +315,8 @@ def e_api(c):
     with warnings.catch_warnings(record=True) as w3:
         warnings.simplefilter("always")
         again, st_again = lib(D.PRBS, n, len=total, seed=seed, return_seed=True)
-    check(again is not out and np.array_equal(again.data, first_bits) and int(st_again) == int(stt), "prbs-results-share-state", f"order {n} seed {seed} len {total}")
-    check(any(issubclass(x.category, UserWarning) for x in w3) == (kind == "zero"), "zero-seed-warning-depends-on-history", f"seed={seed}")
+    check(again is not out and np.array_equal(again.data, first_bits) and int(st_again) == int(stt), "prbs-results-share-state", f"order {n} seed {sd} len {total}")
+    check(any(issubclass(x.category, UserWarning) for x in w3) == (kind == "zero"), "zero-seed-warning-depends-on-history", f"seed={sd}")
     out.data[...] = first_bits
     # plain call (no return_seed) gives the same bits
     with warnings.catch_warnings():
@@ -332,7 +333,7 @@ def e_api(c):
             check(len(p) == a, "prbs-length", f"len={a} got {len(p)}")
             pieces.append(p.data)
     cat = np.concatenate(pieces)
-    check(np.array_equal(cat, out.data), "resume!=single-call", f"order {n} seed {seed} splits {c['splits']}")
+    check(np.array_equal(cat, out.data), "resume!=single-call", f"order {n} seed {sd} splits {c['splits']}")
     check(int(cur) == int(stt), "resume-final-state!=single-call", "")
     return {"nontrivial": len(c["splits"]) >= 2 and kind != "default", "classes": [kind, f"order{n}", f"splits{min(len(c['splits']), 4)}"]}
 
